@@ -152,6 +152,7 @@ def answer (line : String) : String :=
       "suppracls=" ++ ",".intercalate (suppressedAcls r),
       -- `ios_F2_idempotent_exact`: suppressed moves of this run; compared pairs that are equal line by line / get the identity script
       "nosuppr=" ++ (if noSupprRun r then "1" else "0"),
+      "nosupprB=" ++ (if noSupprB a b sc then "1" else "0"),
       "cmppairs=" ++ toString (cmpPairs (alignVRFs a b {}).2 b).length,
       "eqpairs=" ++ toString ((cmpPairs (alignVRFs a b {}).2 b).filter fun p => linesEqB (a.lines p.1) (b.lines p.2)).length,
       "idpairs=" ++ toString ((cmpPairs (alignVRFs a b {}).2 b).filter fun p => identityOn (a.lines p.1) (b.lines p.2) (NA.F1.lookupD sc.acl p)).length,
